@@ -5,7 +5,8 @@ set -u
 export GOFLAGS=-mod=mod GOPROXY=off GOSUMDB=off GOTOOLCHAIN=local
 ID="$1"; TIER="${2:-quick}"; shift; shift || true
 export VERIF_TIER="$TIER"
-cd /verif/harness || exit 2
+# (VERIF_HARNESS: a snapshot copy of the harness sources, so that a long sweep is not disturbed by edits)
+cd "${VERIF_HARNESS:-/verif/harness}" || exit 2
 # Registered commands always build against /repo into /verif/.build. For trying a seeded change on a scratch
 # copy while /repo is busy, VERIF_REPO / VERIF_BUILD point the build at another tree and output directory.
 REPO="${VERIF_REPO:-/repo}"; B="${VERIF_BUILD:-/verif/.build}"
